@@ -1223,3 +1223,195 @@ Theorem C01_zero_referent_breaks_forest :
           decode_file db0 (dp0 None) b = Ok out /\ children_of out 0 = [1; 2] /\ children_of out 2 = []).
 Proof. exact zero_referent_breaks_forest. Qed.
 
+(* ==== CLOSED WHOLE-FILE STATEMENT FOR DATABASE-KNOWN PROPERTIES (Proofs/BinKnownProps.v).  Under executable predicates on the DOM (dom_values_ok:
+   the range conditions of the column theorems and, per property, the reader's back-lookup of the serialized name returning the same canonical
+   name; dom_sstrs_ok) and on the database (class_good, spelling agreement: both passed by the bundled database, the back-lookup with exactly the two
+   recorded exceptions Sound.MaxDistance / MaterialService.Use2022Materials), encode_file succeeds, decode_file succeeds, the forest is the same, no
+   legacy or alias name survives, and for every column of the instance's class the decoded instance holds under the CANONICAL name: normB of its
+   own (migrated) value when it carried a spelling of the property, and normB of the (migrated) default of its own class (nearest ancestor) when
+   it did not but a class-mate did — never another instance's value.  normB = the documented normalisations only (String-like of unknown
+   properties as BinaryString, Color3 quantised into byte colours, Refs through the numbering, CFrame rotation snap).  22 of the 31 wire types
+   (the rest stays with the generic-in-the-column-law theorem above and the per-case differential run).  Computed on the bundled database:
+   a Part with legacy BrickColor 21, a Part with Size only, an instance of an unknown class. *)
+From RbxVerif Require Import DbCheck Attr BinPostorder BinStructure BinTypeInfoFacts BinKnownProps.
+From RbxVerif Require BinRoundTrip Database.
+
+Theorem C01_known_col_roundtrip :
+  forall (c : enc_ctx) (dc : dec_ctx),
+       dc_lim dc = None ->
+       (forall r : N, in_i32 (ref_id c r) = true) ->
+       forall (wt : wire_type) (cty : N) (vs : list value),
+       vs <> [] ->
+       Forall (fun v : value => cell_ok wt cty v = true) vs ->
+       exists b : bytes,
+         enc_col wt c vs = Ok b /\
+         dec_col wt cty dc (Datatypes.length vs) (b ++ []) =
+         Ok (List.map (normB (ec_quant c) (fun r : N => dc_resolve dc (ref_id c r)) wt cty) vs, []).
+Proof. exact known_col_roundtrip. Qed.
+
+Theorem C01_known_columns_cells :
+  forall (d : db) (ep : enc_params) (dom : cdom) (ts : list tree) (st : ser_state),
+       enc_ready d ep dom ts ->
+       dom_spellings_agree d dom ->
+       (forall i : inst, In i dom -> class_good d (i_class i)) ->
+       dom_values_ok d ep dom = true ->
+       add_instances d ep dom (List.map root ts) = Ok st ->
+       forall (cn : bytes) (ti : type_info) (canon : bytes) (pi : prop_info),
+       In (cn, ti) (ss_types st) ->
+       In (canon, pi) (ti_props ti) ->
+       (canon <> NAME ->
+        exists cty : N,
+          find_canonical_property d (pi_type pi) cn (pi_ser_name pi) = Ok (Some (canon, cty, None)) /\
+          (forall (r : N) (i : inst),
+           In r (ti_instances ti) ->
+           find_inst dom r = Some i ->
+           cell_ok (pi_type pi) cty (prop_value ep canon pi (ep_order ep (pi_aliases pi)) i) = true /\
+           (forall (n : bytes) (v : value) (s : bytes) (ty : N) (m : option migop),
+            In (n, v) (i_props i) ->
+            resolve_prop d cn n v = Ok (RProp canon s ty m) -> migv ep (pi_migration pi) v = migv ep m v)) /\
+          utf8_valid (pi_ser_name pi) = true /\
+          N.of_nat (Datatypes.length (pi_ser_name pi)) < 2 ^ 32 /\ pi_ser_name pi <> NAME) /\
+       (canon = NAME -> pi_migration pi = None).
+Proof. exact known_columns_cells. Qed.
+
+Theorem C01_plan_hyps_from_dom :
+  forall (d : db) (ep : enc_params) (dom : cdom) (ts : list tree) (st : ser_state),
+       enc_ready d ep dom ts ->
+       dom_spellings_agree d dom ->
+       (forall i : inst, In i dom -> class_good d (i_class i)) ->
+       dom_values_ok d ep dom = true ->
+       dom_sstrs_ok d dom = true ->
+       add_instances d ep dom (List.map root ts) = Ok st ->
+       BinRoundTrip.sstr_ok st /\
+       BinRoundTrip.ser_names_ok st /\
+       BinRoundTrip.name_cols_ok st /\
+       (forall (cn : bytes) (ti : type_info), In (cn, ti) (ss_types st) -> NoDup (List.map fst (ti_props ti))).
+Proof. exact plan_hyps_from_dom. Qed.
+
+Theorem C01_known_props_roundtrip :
+  forall (d : db) (ep : enc_params) (cmp : compression) (dom : cdom) (ts : list tree) (p : dec_params),
+       enc_ready d ep dom ts ->
+       BinRoundTrip.input_ok dom ts ->
+       BinRoundTrip.names_ok dom ->
+       dom_spellings_agree d dom ->
+       (forall i : inst, In i dom -> class_good d (i_class i)) ->
+       dom_values_ok d ep dom = true ->
+       dom_sstrs_ok d dom = true ->
+       dp_lim p = None ->
+       (forall e : encoded, encode_chunks d ep dom (List.map root ts) = Ok e -> BinRoundTrip.frame_ok p cmp e) ->
+       exists (b : bytes) (st : ser_state) (out : cdom),
+         encode_file d ep cmp dom (List.map root ts) = Ok b /\
+         add_instances d ep dom (List.map root ts) = Ok st /\
+         decode_file d p b = Ok out /\
+         BinRoundTrip.same_forest dom ts (BinRoundTrip.lbl st) out /\
+         (forall (cn : bytes) (ti : type_info) (k : nat) (r : N),
+          In (cn, ti) (ss_types st) ->
+          nth_error (ti_instances ti) k = Some r ->
+          exists i i' : inst,
+            find_inst dom r = Some i /\
+            i_class i = cn /\
+            find_inst out (BinRoundTrip.lbl st r) = Some i' /\
+            i_ref i' = BinRoundTrip.lbl st r /\
+            i_class i' = cn /\
+            i_name i' = i_name i /\
+            (forall (k0 : bytes) (v : value),
+             In (k0, v) (i_props i') -> k0 <> NAME /\ (exists pi : prop_info, In (k0, pi) (ti_props ti))) /\
+            (forall (canon : bytes) (pi : prop_info),
+             In (canon, pi) (ti_props ti) ->
+             canon <> NAME ->
+             exists cty : N,
+               find_canonical_property d (pi_type pi) cn (pi_ser_name pi) = Ok (Some (canon, cty, None)) /\
+               (inst_one_spelling d i ->
+                forall (n : bytes) (v : value) (s : bytes) (ty : N) (m : option migop),
+                In (n, v) (i_props i) ->
+                resolve_prop d cn n v = Ok (RProp canon s ty m) ->
+                bfind canon (i_props i') =
+                Some (normB (ep_quant ep) (BinRoundTrip.ref_new st) (pi_type pi) cty (migv ep m v))) /\
+               ((forall (n : bytes) (v : value) (s : bytes) (ty : N) (m : option migop),
+                 In (n, v) (i_props i) -> resolve_prop d cn n v <> Ok (RProp canon s ty m)) ->
+                bfind canon (i_props i') =
+                Some
+                  (normB (ep_quant ep) (BinRoundTrip.ref_new st) (pi_type pi) cty
+                     (migv ep (pi_migration pi) (pi_default pi))) /\
+                (exists ty0 : N,
+                   col_plan d (get_class d (string_of_bytes cn)) canon ty0 = Ok (pi_default pi, pi_type pi))))).
+Proof. exact known_props_roundtrip. Qed.
+
+Theorem C01_known_props_roundtrip_bundled :
+  forall (ep : enc_params) (cmp : compression) (dom : cdom) (ts : list tree) (p : dec_params),
+       enc_ready Database.database ep dom ts ->
+       BinRoundTrip.input_ok dom ts ->
+       BinRoundTrip.names_ok dom ->
+       (forall (cn n : bytes) (v1 v2 : value),
+        In (n, v1) (class_pairs dom cn) ->
+        In (n, v2) (class_pairs dom cn) ->
+        known_resolve Database.database (string_of_bytes cn) (string_of_bytes n) = Ok None ->
+        vtype v1 = vtype v2) ->
+       dom_values_ok Database.database ep dom = true ->
+       dom_sstrs_ok Database.database dom = true ->
+       dp_lim p = None ->
+       (forall e : encoded,
+        encode_chunks Database.database ep dom (List.map root ts) = Ok e -> BinRoundTrip.frame_ok p cmp e) ->
+       exists (b : bytes) (st : ser_state) (out : cdom),
+         encode_file Database.database ep cmp dom (List.map root ts) = Ok b /\
+         add_instances Database.database ep dom (List.map root ts) = Ok st /\
+         decode_file Database.database p b = Ok out /\
+         BinRoundTrip.same_forest dom ts (BinRoundTrip.lbl st) out /\
+         (forall (cn : bytes) (ti : type_info) (k : nat) (r : N),
+          In (cn, ti) (ss_types st) ->
+          nth_error (ti_instances ti) k = Some r ->
+          exists i i' : inst,
+            find_inst dom r = Some i /\
+            i_class i = cn /\
+            find_inst out (BinRoundTrip.lbl st r) = Some i' /\
+            i_ref i' = BinRoundTrip.lbl st r /\
+            i_class i' = cn /\
+            i_name i' = i_name i /\
+            (forall (k0 : bytes) (v : value),
+             In (k0, v) (i_props i') -> k0 <> NAME /\ (exists pi : prop_info, In (k0, pi) (ti_props ti))) /\
+            (forall (canon : bytes) (pi : prop_info),
+             In (canon, pi) (ti_props ti) ->
+             canon <> NAME ->
+             exists cty : N,
+               find_canonical_property Database.database (pi_type pi) cn (pi_ser_name pi) =
+               Ok (Some (canon, cty, None)) /\
+               (inst_one_spelling Database.database i ->
+                forall (n : bytes) (v : value) (s : bytes) (ty : N) (m : option migop),
+                In (n, v) (i_props i) ->
+                resolve_prop Database.database cn n v = Ok (RProp canon s ty m) ->
+                bfind canon (i_props i') =
+                Some (normB (ep_quant ep) (BinRoundTrip.ref_new st) (pi_type pi) cty (migv ep m v))) /\
+               ((forall (n : bytes) (v : value) (s : bytes) (ty : N) (m : option migop),
+                 In (n, v) (i_props i) -> resolve_prop Database.database cn n v <> Ok (RProp canon s ty m)) ->
+                bfind canon (i_props i') =
+                Some
+                  (normB (ep_quant ep) (BinRoundTrip.ref_new st) (pi_type pi) cty
+                     (migv ep (pi_migration pi) (pi_default pi))) /\
+                (exists ty0 : N,
+                   col_plan Database.database (get_class Database.database (string_of_bytes cn)) canon ty0 =
+                   Ok (pi_default pi, pi_type pi))))).
+Proof. exact known_props_roundtrip_bundled. Qed.
+
+Theorem C01_bundled_back_offenders :
+  back_offenders Database.database =
+       [("MaterialService"%string, "Use2022Materials"%string); ("Sound"%string, "MaxDistance"%string)].
+Proof. exact bundled_back_offenders. Qed.
+
+Theorem C01_bundled_example_roundtrip :
+  (exists (b : bytes) (st : ser_state) (out : cdom),
+          encode_file Database.database ep_ex None ex_dom (List.map root ex_ts) = Ok b /\
+          add_instances Database.database ep_ex ex_dom (List.map root ex_ts) = Ok st /\
+          decode_file Database.database dp_ex b = Ok out /\
+          BinRoundTrip.same_forest ex_dom ex_ts (BinRoundTrip.lbl st) out) /\
+       obs
+         (' b <- encode_file Database.database ep_ex None ex_dom [1; 2; 3];;
+          decode_file Database.database dp_ex b) =
+       [(bstr "Part", bstr "A",
+         [(bstr "Size", VVector3 {| vx := 1082130432; vy := 1067030938; vz := 1073741824 |});
+          (bstr "Color", VColor3uint8 196 40 28)]);
+        (bstr "Part", bstr "B",
+         [(bstr "Size", VVector3 {| vx := F32_ONE; vy := F32_ONE; vz := F32_ONE |});
+          (bstr "Color", VColor3uint8 163 162 165)]);
+        (bstr "NotAClass", bstr "C", [(bstr "Note", VBinaryString [104; 105]); (bstr "Flag", VBool true)])].
+Proof. exact bundled_example_roundtrip. Qed.
+
